@@ -1,0 +1,11 @@
+// Copyright ©2011-2012 The bíogo Authors. All rights reserved.
+// Use of this source code is governed by a BSD-style
+// license that can be found in the LICENSE file.
+
+//go:build !verif
+
+package concurrent
+
+// verifStep is an observation point for the external verification harness.
+// Without the verif build tag it does nothing.
+func verifStep(string) {}
